@@ -429,7 +429,7 @@ func genGraft(rf *kernel.Rand, name string) (ByteFault, bool) {
 		case 1:
 			groups = [][3]uint32{{0, 0xFFFFFFFF, 0}}
 		case 2:
-			for i := 0; i < rf.Range(50, 400); i++ {
+			for i, n := 0, kernel.Pick(rf, []int{50, 400, 3000, 12000}); i < n; i++ {
 				groups = append(groups, [3]uint32{0x20, 0x10FFFF, uint32(i)})
 			}
 		default:
